@@ -55,7 +55,8 @@ def representatives():
         "KBool": [True, False],
         "KInt": [0, 1, -1, 2 ** 63 + 1, -(10 ** 40)],
         "KFloat": [0.0, -0.0, 1.5, -1e308, 5e-324],
-        "KStr": ["", "a", "añ\U0001F600"],
+        # (strings stay strings whatever they look like: dates, numerals, keywords, durations)
+        "KStr": ["", "a", "añ\U0001F600", "1999-12-31", "2021-03-04T05:06:07+02:00", "20210304", "12", "1e3", "true", "null", "P1D", "1:00:00"],
         "KList": [[], [1, 2]],
         "KTuple": [(), (1, 2)],
         "KDict": [{}, {"a": 1}, utils.FrozenDict({"a": 1})],
@@ -97,6 +98,7 @@ for _n, _c in _CMP.items():
     _TAGS[("yaql.standard_library.common", "null_%s_null" % _n)] = "(PNullNull %s)" % _c
 
 _other = {}
+_nonuniform = []
 
 
 def payload_key(payload):
@@ -206,9 +208,10 @@ def describe(context, engine, name, arity):
                     for k in KINDS:
                         answers = {bool(p.value_type.check(v, context, engine)) for v in reps[k]}
                         if len(answers) != 1:
-                            raise AssertionError(
-                                "parameter %r of %r does not treat all %s representatives alike" % (p.name, d["key"], k))
-                        row.append(answers.pop())
+                            # recorded (Gen fact gen_rows_uniform = false breaks an obligation) instead of raised, so
+                            # that correspondence and oracle still run and produce the failing input
+                            _nonuniform.append("parameter %r of %s.%s on %s" % (p.name, d["key"][0], d["key"][1], k))
+                        row.append(True in answers)
                     d["rows"].append(row)
             d["tag"] = tag_of(fd.payload, name, d["rows"])
             lay.append(d)
@@ -225,6 +228,7 @@ def gb(b):
 
 def generate():
     _other.clear()
+    del _nonuniform[:]
     lines = ["(* REGENERATED on every run by harness/gen_scalarops.py from the live registries of",
              "   the three configurations of Model.Scalars.cfg (default; engine option yaql.iterableDicts;",
              "   legacy factory + legacy context); do not edit. *)",
@@ -260,6 +264,10 @@ def generate():
     lines.append("")
     lines.append("Definition registry : op -> optable := registry_of CDefault.")
     lines.append("Definition n_overloads : nat := %d." % total)
+    lines.append("(* does every parameter treat all representatives of a kind alike (e.g. every string as a string)? *)")
+    lines.append("Definition gen_rows_uniform : bool := %s." % gb(not _nonuniform))
+    for t in sorted(set(_nonuniform)):
+        lines.append("(* not uniform: %s *)" % t)
     lines.append("(* payloads outside the model (dispatch only): %s *)" %
                  ", ".join("%d=%s.%s" % (i, k[0], k[1]) for k, i in sorted(_other.items(), key=lambda t: t[1])))
     return "\n".join(lines) + "\n"
